@@ -118,8 +118,8 @@ func Alternates() map[string][]cty.Value {
 		"n1": {num(0), num(2), num(-1), cty.NumberFloatVal(1.5)},
 		"n2": {num(1), num(0), num(3)},
 		"nh": {num(1), num(0), cty.NumberFloatVal(2.5)},
-		"s":  {str("b"), str(""), str("1"), str("true")},
-		"sn": {str("0"), str("2"), str("a"), str("-1")},
+		"s":  {str("b"), str(""), str("1"), str("true"), str("\u0301!")},
+		"sn": {str("0"), str("2"), str("a"), str("-1"), str("\u0308x")},
 		"b":  {cty.False},
 		"nul": {},
 		"ns":  {str("a"), str("")},
